@@ -511,7 +511,7 @@ def expected_object(viewer, tgt, boxes, spacing, rng):
         if bx.occluding and wall_covers(viewer.cam, corners, bx):
             return False, "fully-occluded"
     r = max(6 * spacing, 0.02)
-    cands = [tgt.c] + tgt.interior_points(rng, 10)
+    cands = [tgt.c] + tgt.interior_points(rng, 24)
     why = {}
     cam_inside = tgt.ray_interval(viewer.cam, np.array([0.0, 1.0, 0.0]))
     cam_inside = cam_inside is not None and cam_inside[0] <= 1e-12
